@@ -255,7 +255,13 @@ def judgeLogical (toks : List String) (out : List String) : String :=
   match parseLOp toks with
   | none => "ok"
   | some op =>
-    if out == ["typecheck-panic"] then "ok"
+    if out == ["typecheck-panic"] then
+      -- the expression is a boolean expression over the declared columns: SQL gives it a value on every record.
+      -- The one rejection the code is known for: NOT over an operand whose static type is exactly NULL.
+      if !(op.u.bound op.cols.length) then "ok"
+      else if op.u.notOverNull op.cols then
+        "known null-typed-operand-rejected NOT over an operand of static type NULL is rejected by the typechecker"
+      else "bad typechecker-rejects-boolean-expression"
     else
       let results := (out.dropWhile (· != "|")).drop 1
       let exps := (recordsOf op.cols).map fun a =>
@@ -327,7 +333,10 @@ def judgeCmp (toks : List String) (out : List String) : String :=
   match parseCmpLine toks with
   | none => "ok"
   | some c =>
-    if out == ["typecheck-panic"] then "ok"
+    if out == ["typecheck-panic"] then
+      if (typecheckCmp c.op c.lt c.rt).isNone then
+        "known null-typed-operand-rejected ordering comparison with an operand of static type NULL is rejected by the typechecker"
+      else "bad typechecker-rejects-comparison"
     else
       let result := String.intercalate " " ((out.dropWhile (· != "|")).drop 1)
       let want := match c.lv, c.rv with
